@@ -11,6 +11,7 @@ C07 — obligations over the TRANSLATED thin-plate-spline source (`Generated/C07
 -/
 import MenpoModel.Generated.C07Src
 import MenpoModel.Props.C07
+import MenpoModel.GenProps.C07Src
 
 set_option linter.unusedSimpArgs false
 set_option linter.unusedVariables false
@@ -80,7 +81,7 @@ theorem genTpsBuildCoefficients_eq {n : ℕ} (ext : Ext) (a : TpsObj n) :
       { a with v := tr a.target
                y := hcat (tr a.target) (zerosM : Mat 2 3)
                coefficients := tpsFitSvd (ext.svd a.l).1 (ext.svd a.l).2.1 (ext.svd a.l).2.2 a.minSing a.target } := by
-  simp only [genTpsBuildCoefficients, keep_eq, truncated_inverse, rhs_eq_tpsY, tpsFitSvd]
+  simp only [genTpsBuildCoefficients, np_count_below, np_inv_col, keep_eq, truncated_inverse, rhs_eq_tpsY, tpsFitSvd]
 
 theorem genTpsSync_eq {n : ℕ} (ext : Ext) (a : TpsObj n) : genTpsSync ext a = genTpsBuildCoefficients ext a := rfl
 
